@@ -120,6 +120,7 @@ RUNS = {
         {"name": "K7-shared-path-storm-race", "mode": "k7storm", "budget": (0, 600), "nontrivial": r".", "keyfn": "generic", "race": True, "tiers": ["thorough"]},
         {"name": "K7-pairs-race", "mode": "k7pair", "budget": (0, 968), "nontrivial": r".", "keyfn": "k7pair", "race": True, "tiers": ["thorough"]},
         {"name": "K4-session-race", "mode": "k4", "budget": (0, 9000), "nontrivial": r"^rtyp=(?!7 )", "keyfn": "k4", "race": True, "tiers": ["thorough"]},
+        {"name": "K7-buffers-not-shared-between-requests", "mode": "kalias", "budget": (96, 1600), "nontrivial": r"answered=1", "keyfn": "generic"},
     ],
     "C08": [
         {"name": "K5-path-coherence", "mode": "k5", "budget": (12000, 120000), "nontrivial": r"^rtyp=(75|21|77|123) |^ok=1", "keyfn": "k5"},
@@ -753,7 +754,7 @@ for _p in ("C11", "C12"):
         "does not return within 20 s is reported as hung.")
 PROPS["C12"]["rule"] = PROPS["C12"].get("rule", "") + " kver: version strings of 8000..65535 bytes (answered, not dropped)."
 PROPS["C02"]["rule"] = PROPS["C02"].get("rule", "") + " k2srv frames include Tflush of idle tags (replies without a body) before rejected frames with a body."
-for _p in ("C01", "C02", "C03", "C11", "C18"):
+for _p in ("C01", "C02", "C03", "C11", "C16", "C18"):
     PROPS[_p]["rule"] = PROPS[_p].get("rule", "") + (" kalias readdirs: 2..4 connections list their own directories at once with blocked reply writers; every Rreaddir must carry "
         "entries of its own directory only.")
 PROPS["C09"]["rule"] = PROPS["C09"].get("rule", "") + (" k7pair: an unlink of an entry excludes every call on that entry, walks out of it included (a walk step cannot be "
